@@ -6,12 +6,14 @@
   (tune_parameters / is_valid), Run.lean (the loop as a transition system),
   Evo.lean (evolution::run as the interpretation of its extracted skeleton, summary::clear,
   several runs on one evolution object, the guard tables of the strategies),
-  Decide.lean (the deciders the driver runs on observations of real executions).
+  Shake.lean (evolution::run with an arbitrary shake functor: evaluator over mutable data, the shake
+  branch WITH its condition), Decide.lean (the deciders the driver runs on observations of real executions).
   Gen.lean / GenEvo.lean are regenerated from the clang AST of the current sources on every run.
   Individuals are abstract (`α`), the evaluator is a function `α → F`, `F` carries a
   total preorder (`FitOrd`; C18 proves it for `fitness_t`).
 -/
 import Vita.C06.Decide
+import Vita.C06.Shake
 import Vita.C06.Tune
 import Vita.C06.Gen
 import Vita.C06.GenEvo
@@ -378,9 +380,11 @@ example : clearTblOf [("az", "clear()"), ("best.score", "model_measurements()"),
     [("crossovers", 0), ("elapsed", 0), ("gen", 0), ("mutations", 0)] ≠ Model.clearTbl := by decide
 
 /-- the statement skeleton of `evolution<T,ES>::run` (clear; best = pop[{0,0}]; fitness = eva(best);
-    es.init(); for (gen = 0; …; ++gen) { [shake]; stats; for (k…) { select; recombine; replace }
-    es.after_generation(); callback }; return stats) and its loop conditions are the ones the
-    interpreter `evoRunSk` is proved about; `run(unsigned)` runs without shake -/
+    es.init(); for (gen = 0; …; ++gen) { if (shake(gen)) fitness = eva(best); stats; for (k…) { select;
+    recombine; replace } es.after_generation(); callback }; return stats) and its loop conditions are
+    the ones the interpreters `evoRunSk` / `evoRunSkD` are proved about – the CONDITION of the shake
+    branch (the bare call `shake(stats_.gen)`: `Tok.ifShake c`) and its body (`shakeBody`) included;
+    `run(unsigned)` runs without shake -/
 theorem run_skeleton_matches_source :
     GenEvo.skel = Model.skel ∧ GenEvo.genLoopCond = Model.genLoopCond ∧
     GenEvo.stepLoopCond = Model.stepLoopCond ∧ GenEvo.noShakeDefault = true :=
@@ -517,8 +521,9 @@ theorem source_runs_gen_inv (e : EvoCtx α F) (htbl : e.tbl = srcClear) (lok : L
   exact ⟨mreach_inv _ _ _ _ ok shape0 _ _ hi h.1, (run_best_monotone _ _ _ h.2).1⟩
 
 /-- soundness of the session monitor: the driver accepted the first state and every observed
-    transition (run steps, generation boundaries, restarts checked against the SOURCE `clear()`)
-    ⇒ every observed state of every run satisfies the run invariant. -/
+    transition (run steps, generation boundaries, restarts checked against the SOURCE `clear()`,
+    data shakes – `shakeB`: nothing moved, best-so-far fitness = score of the best-so-far individual
+    under the new data) ⇒ every observed state of every run satisfies the run invariant. -/
 theorem monitor_sound_runs (cfg : Cfg α F) (d : α) (df : F) (hd : cfg.wf d = true) (shape0 : List Nat)
     (st : St α F) (tr : List (MEvent α × St α F)) (h0 : runInvB cfg shape0 st = true)
     (ht : mtraceOKB cfg srcClear d df st tr = true) :
@@ -527,6 +532,72 @@ theorem monitor_sound_runs (cfg : Cfg α F) (d : α) (df : F) (hd : cfg.wf d = t
   exact (last_imp_le_gen_runs cfg d df hd shape0 st s (runInvB_sound _ _ _ h0)
     (mtraceOKB_sound cfg srcClear d df st tr ht s hs)).2
 
+/-! ## (8) runs with a shake functor (the evaluator reads mutable data) -/
+
+omit [DecidableEq α] [DecidableEq F] in
+/-- **best-so-far fitness = evaluator's score of the best-so-far individual, across data shakes**:
+    after the head of a generation of the SOURCE skeleton (shake branch with the source's condition
+    and body) the stored fitness is the score under the data as they are now – for ANY outcome of
+    `shake(gen)` (returned false; returned true with new, or the same, data) and at ANY generation,
+    generation 0 included. -/
+theorem best_is_eval_shake {D : Type} (e : DEvoCtx α F D) (st : St α F) (d : D) (g : GenIn α D)
+    (h : st.sum.bestFit = e.evalD d st.sum.best) :
+    (genHeadD GenEvo.skel e (st, d) g).1.sum.bestFit =
+      e.evalD (genHeadD GenEvo.skel e (st, d) g).2 (genHeadD GenEvo.skel e (st, d) g).1.sum.best := by
+  rw [run_skeleton_matches_source.1]
+  exact head_best_is_eval e st d g h
+
+omit [DecidableEq α] [DecidableEq F] in
+/-- the interpreter of the SOURCE skeleton driven by an arbitrary shake functor (one arbitrary
+    outcome per generation), arbitrary draws / offspring (offspring well-formed), any number of runs
+    on one object: the run invariant w.r.t. the CURRENT data – layers within their capacities, sizes
+    constant under std/DE, `bestFit = evalD (data now) best`, `last_imp ≤ gen`, everybody
+    well-formed – holds after every run and at the end of every generation of a run (every list of
+    generations = every prefix). -/
+theorem source_runs_shake_inv {D : Type} (e : DEvoCtx α F D) (htbl : e.base.tbl = srcClear)
+    (lok : LoopOK e.base.loop) (hd : e.base.loop.cfg.wf e.base.dflt = true) (shape0 : List Nat)
+    (st : St α F) (d : D) (hi : RunInv (e.cfgAt d) shape0 st) :
+    (∀ runs : List (List (GenIn α D)), (∀ gens ∈ runs, ∀ g ∈ gens, ∀ i ∈ g.1, e.base.loop.cfg.wf i.off = true) →
+      RunInv (e.cfgAt (evoRunsSkD GenEvo.skel e (st, d) runs).2) shape0 (evoRunsSkD GenEvo.skel e (st, d) runs).1) ∧
+    (∀ gens : List (GenIn α D), (∀ g ∈ gens, ∀ i ∈ g.1, e.base.loop.cfg.wf i.off = true) →
+      RunInv (e.cfgAt (evoRunSkD GenEvo.skel e (st, d) gens).2) shape0 (evoRunSkD GenEvo.skel e (st, d) gens).1) := by
+  have ok : ClearOK e.base.loop.cfg e.base.tbl e.base.dflt := ⟨by rw [htbl]; decide, hd⟩
+  rw [run_skeleton_matches_source.1]
+  exact ⟨fun runs h => evoRunsSkD_inv e lok ok shape0 runs st d hi h,
+    fun gens h => evoRunSkD_inv e lok ok shape0 gens st d hi h⟩
+
+omit [DecidableEq α] [DecidableEq F] in
+/-- "absent a data shake": a generation in which the functor returns false leaves the data alone and
+    does not lower the best-so-far fitness; a run in which it never fires is the shake-free
+    interpreter `evoRunSk` (to which `source_runs_gen_inv` / `run_best_monotone` apply). -/
+theorem shake_free_monotone {D : Type} (e : DEvoCtx α F D) (lok : LoopOK e.base.loop) (shape0 : List Nat)
+    (st : St α F) (d : D) (hi : RunInv (e.cfgAt d) shape0 st) :
+    (∀ g : GenIn α D, g.2.2 = none → (∀ i ∈ g.1, e.base.loop.cfg.wf i.off = true) →
+      (genSkD GenEvo.skel e (st, d) g).2 = d ∧
+      le st.sum.bestFit (genSkD GenEvo.skel e (st, d) g).1.sum.bestFit = true) ∧
+    (∀ gens : List (GenIn α D), (∀ g ∈ gens, g.2.2 = none) →
+      evoRunSkD GenEvo.skel e (st, d) gens =
+        (evoRunSk GenEvo.skel (e.at d) st (gens.map fun g => (g.1, g.2.1)), d)) := by
+  rw [run_skeleton_matches_source.1]
+  exact ⟨fun g hn hoff => genSkD_noshake_monotone e lok shape0 st d g hn hi hoff,
+    fun gens hn => evoRunSkD_noshake e st d gens hn⟩
+
+/-- the condition of the shake branch is load-bearing: with `shake(stats_.gen) && stats_.gen` (no
+    re-evaluation for a shake at generation 0) the interpreter reaches a state whose best-so-far
+    fitness is NOT the score of the best-so-far individual under the current data – such a
+    skeleton is not the model's, so `run_skeleton_matches_source` fails on it. -/
+theorem shake_condition_matters :
+    (genHeadD guardedSkel exShakeCtx (exShakeSt, 1) ([], noAG, some 2)) = (exShakeSt, 2) ∧
+    exShakeSt.sum.bestFit ≠ exShakeCtx.evalD 2 exShakeSt.sum.best ∧ guardedSkel ≠ Model.skel :=
+  guarded_breaks_best_eval
+
+/-- non-vacuity: the hypotheses of `source_runs_shake_inv` hold for a concrete context; a run of two
+    generations with a shake at generation 0 (data 1 → 2) and none at generation 1 -/
+example : LoopOK exShakeCtx.base.loop ∧ exShakeCtx.base.tbl = srcClear ∧
+    runInvB (exShakeCtx.cfgAt 1) [1] exShakeSt = true := ⟨⟨fun _ => rfl, fun _ h => h⟩, by decide, by decide⟩
+example : evoRunSkD GenEvo.skel exShakeCtx (exShakeSt, 1)
+    [([⟨[(0, 0)], 4, 0, false, [], []⟩], noAG, some 2), ([], noAG, none)] =
+    (⟨⟨[[4]], [1]⟩, ⟨4, 8, 0, 2⟩⟩, 2) := by decide
 /-! ### non-vacuity of the run-level hypotheses -/
 
 /-- a concrete configuration, state and one-iteration model run: the invariant holds before,
@@ -563,5 +634,12 @@ example : (evoRunsSk GenEvo.skel exEvo exSt [[([exStep], ⟨[], [], none, []⟩)
 example : mtraceOKB exCfg srcClear exEvo.dflt 0 exEnd [(.restart, startRun GenEvo.skel exEvo exEnd)] = true := by decide
 /-- a `clear()` that forgets `last_imp` is rejected by the obligation `ClearOK` -/
 example : (clearTblOf [("gen", "0"), ("best", "")] [("gen", 0)]).lastImp = none := by decide
+
+/-- the monitor's shake decider: accepts the re-observed state with the re-evaluated best, rejects a
+    stale best-so-far fitness -/
+example : shakeB exCfg exSt ⟨⟨[[⟨-7, 0, 11, true⟩, ⟨-2, 0, 12, true⟩, ⟨-4, 0, 13, true⟩]], [3]⟩,
+    ⟨⟨-7, 0, 11, true⟩, -7, 0, 0⟩⟩ = true := by decide
+example : shakeB exCfg exSt ⟨⟨[[⟨-7, 0, 11, true⟩, ⟨-2, 0, 12, true⟩, ⟨-4, 0, 13, true⟩]], [3]⟩,
+    ⟨⟨-7, 0, 11, true⟩, -5, 0, 0⟩⟩ = false := by decide
 
 end Vita.C06
